@@ -64,6 +64,19 @@ class VAlien:
         return 107   # deterministic: set order must not depend on id()
 
 
+def _twin(bases, ns=None):
+    """Two unrelated classes with the *same* module and qualified name (and hence the same repr).  They are only
+    used by the checks that probe name-keyed caches on purpose (C14, C19) and never by the shared grammar."""
+    d = {'__module__': __name__, '__qualname__': 'VTwin', '__hash__': lambda self: 131,
+         '__repr__': lambda self: 'VTwin()'}
+    d.update(ns or {})
+    return type('VTwin', bases, d)
+
+
+VTwinA = _twin((), {'twin_side': 'A'})
+VTwinB = _twin((), {'twin_side': 'B'})
+
+
 class VColor(enum.Enum):
     RED = 1
     GREEN = 2
@@ -163,6 +176,7 @@ CLASSES = {
     'VBase': VBase, 'VDerived': VDerived, 'VOther': VOther, 'VAlien': VAlien, 'VColor': VColor,
     'list': list, 'dict': dict, 'tuple': tuple, 'set': set, 'frozenset': frozenset,
     'object': object, 'VFooImpl': VFooImpl, 'VMyList': VMyList, 'VBox': VBox,
+    'VTwinA': VTwinA, 'VTwinB': VTwinB,
 }
 LEAF_CLASSES = ['int', 'str', 'bytes', 'float', 'bool', 'complex', 'VBase', 'VDerived', 'VOther']
 TYPEVARS = {'VT': VT, 'VTB': VTB, 'VTC': VTC}
@@ -791,7 +805,7 @@ def conforming(draw, node, hashable=False, size=None):
             return ['c', [draw(st.sampled_from([0.0, 1.0])), draw(st.sampled_from([0.0, -2.0]))]]
         if c == 'VBase':
             return ['obj', draw(st.sampled_from(['VBase', 'VDerived']))]
-        if c in ('VDerived', 'VOther', 'VAlien', 'VFooImpl'):
+        if c in ('VDerived', 'VOther', 'VAlien', 'VFooImpl', 'VTwinA', 'VTwinB'):
             return ['obj', c]
         if c == 'VColor':
             return ['enum', draw(st.sampled_from(['RED', 'GREEN']))]
